@@ -187,6 +187,8 @@ type docBuilder struct {
 	// elements; 1 two blanks; 2 a tab; 3 folded with the continuation aligned under the first
 	// element; 4 folded behind a tab; 5 two blanks and a fold indented by two)
 	blankStyle int
+	// substVersions: version clauses of relationship fields may hold substitution variables
+	substVersions bool
 }
 
 func newDocBuilder() *docBuilder { return &docBuilder{feats: map[string]bool{}} }
